@@ -222,3 +222,139 @@ def jobs(src):
         c, b = matrix_contract(dec)
         out.append(dict(contract=c, source=src, builtins=b, lang="python", tag="op2.%s[ghost file]" % c.qualname.split(".")[1]))
     return out
+
+
+# ------------------------------------------------------------------------------------------------------------------
+RECEND = z3.Function("record_end", z3.IntSort(), z3.IntSort())     # offset of the key triplet (k <= 0) that ends the parts starting with the triplet at p
+WFR = z3.Function("wf_record", z3.IntSort(), z3.BoolSort())
+
+
+def record_contract(which, form=None, with_n=False):
+    """OP2.rdop2record(form, N) / OP2.skipop2record on a (possibly multi-part) logical record:
+        record := key-triplet(k > 0) [reclen:4] payload [reclen:4]  ...  key-triplet(k <= 0) key-triplet key-triplet
+    every part is appended in order as reclen // bytes_per items (bytes: the raw payload) taken from the part's payload offset; on return the reader stands
+    behind the two closing key triplets (the same offset for every form and for the skipper); a first key of 0 returns None right behind that triplet."""
+    env = make_env(True)
+    ib, T = env["ib"], env["T"]
+    so = env["selfobj"]
+    b = dict(env["builtins"])
+
+    def fmt(kind, size):
+        def binop(eng, op, other, left):
+            if isinstance(op, ast.Mod) and left:
+                return ("fmt%", kind, size, eng.to_int(other))
+            raise Unsupported("operation on a format string")
+        o = PyObj(kind, attrs={"itemsize": size}, binop=binop)
+        o.methods["replace"] = lambda eng, e, st, spec, o=o: o           # 'i' -> 'u' / 'I' ('q' -> 'Q'): same item size
+        return o
+    intstr, intstru = fmt("rfrm", ib), fmt("rfrmu", ib)
+    f4, f4u, f8, f8u = fmt("rfrm", z3.IntVal(4)), fmt("rfrmu", z3.IntVal(4)), fmt("f8", z3.IntVal(8)), fmt("%dd", z3.IntVal(8))
+
+    def endian_binop(eng, op, other, left):
+        table = {"f8": f8, "%dd": f8u, "f4": f4, "%df": f4u}
+        if isinstance(op, ast.Add) and left and other in table:
+            return table[other]
+        raise Unsupported("string built from the byte-order character: %r" % (other,))
+    so.attrs.update({"_intstr": intstr, "_intstru": intstru, "_endian": PyObj("endian", binop=endian_binop)})
+
+    def skipkey(eng, e, st, spec):
+        n = _int(eng, e.args[0], st)
+        st.env["pos__"] = st.env["pos__"] + n * T
+        return None
+    so.methods["_skipkey"] = skipkey
+
+    def log_part(eng, st, p, n, node):
+        st.env["put_p__"], st.env["put_n__"] = p, n
+        st.env["nput__"] = st.env["nput__"] + 1
+
+    def lst_factory():
+        def append(eng, e, st, spec):
+            tok = eng.ev(e.args[0], st)
+            if not isinstance(tok, Tok):
+                raise Unsupported("append of something not read from the file")
+            log_part(eng, st, tok.p, tok.n, e)
+        def extend(eng, e, st, spec):
+            v = eng.ev(e.args[0], st)
+            if not isinstance(v, Vals):
+                raise Unsupported("extend with something not read from the file")
+            log_part(eng, st, v.p, v.n, e)
+        return PyObj("accumulator", methods={"append": append, "extend": extend})
+
+    def setitem(eng, t, val, st):
+        sl = t.slice
+        if not (isinstance(sl, ast.Slice) and isinstance(val, Vals)):
+            raise Unsupported("store into the record array that is not data[i:i+n] = values read from the file")
+        lo, hi = _int(eng, sl.lower, st), _int(eng, sl.upper, st)
+        eng.oblige(st, hi - lo == val.n, "slice-length-equals-values-read@L%s" % t.lineno, "assert", t)
+        eng.oblige(st, lo == st.env["SUM__"], "part-stored-right-after-the-previous-one@L%s" % t.lineno, "assert", t)
+        log_part(eng, st, val.p, val.n, t)
+    b["np.empty"] = lambda eng, e, st, spec: PyObj("record array", setitem=setitem)
+    b["np.array"] = lambda eng, e, st, spec: PyObj("record array")
+    b["b''.join"] = lambda eng, e, st, spec: PyObj("bytes")
+
+    def unfold_record(eng, e, st, spec):
+        p = eng.to_int(eng.ev(e.args[0], st, True))
+        q = p + T
+        nxt = q + 4 + F4(q) + 4
+        bpf = st.env["BPF__"]            # the caller reads the record in a form whose item size divides every part (precondition on the file / the chosen form)
+        return z3.And(z3.Implies(z3.And(WFR(p), FI(p + 4) > 0), z3.And(F4(q) >= 0, F4(q) % bpf == 0, WFR(nxt), RECEND(p) == RECEND(nxt))),
+                      z3.Implies(z3.And(WFR(p), FI(p + 4) <= 0), RECEND(p) == p))
+    b.update({"WFR": lambda eng, e, st, spec: WFR(*[eng.to_int(eng.ev(a, st, spec)) for a in e.args]),
+              "RECEND": lambda eng, e, st, spec: RECEND(*[eng.to_int(eng.ev(a, st, spec)) for a in e.args]), "UNFOLD_RECORD": unfold_record})
+
+    c = Contract(FILE, "OP2.rdop2record" if which == "read" else "OP2.skipop2record", floats="real")
+    c.objects = True
+    c.list_factory = lst_factory
+    c.extra_mods = ("pos__", "put_p__", "put_n__", "nput__")
+    c.variant = "%s%s" % (form if which == "read" else "skip", ", N given" if with_n else "")
+    c.param_types.update({"self": ("const", so)})
+    c.types(ib=("const", ib), P0__="int", rowsCutoff=("const", env["cutoff"]))
+    if which == "read":
+        c.types(form=("const", form), N=("int" if with_n else ("const", 0)))
+        if with_n:
+            c.requires("N > 0")
+    c.ghost("pos__", "int", "P0__")
+    c.ghost("K__", "int", "P0__")
+    c.ghost("SUM__", "int", "0")
+    c.ghost("BPF__", "int", {None: "ib", "int": "ib", "uint": "ib", "double": "8", "single": "4", "bytes": "1"}[form] if which == "read" else "1")
+    for g in ("put_p__", "put_n__", "nput__"):
+        c.ghost(g, "int", "0")
+    c.requires("ib == 4 or ib == 8", "rowsCutoff >= 0", "WFR(P0__)")
+    Ts = "(8 + ib)"
+    inv = ["pos__ == K__ + %s" % Ts, "key == FI(K__ + 4)", "WFR(K__)", "RECEND(K__) == RECEND(P0__)"]
+    bytes_per = {None: "ib", "int": "ib", "uint": "ib", "double": "8", "single": "4", "bytes": "1"}[form] if which == "read" else None
+    if which == "read" and form != "bytes":
+        inv += ["bytes_per == %s" % bytes_per]
+        if with_n:
+            inv += ["i == SUM__"]
+    lid = "0" if (which == "skip" or form == "bytes") else ("1" if with_n else "2")      # rdop2record: loop 0 = bytes, 1 = N given, 2 = N unknown
+    c.loop(lid, invariant=inv, unfold=["UNFOLD_RECORD(K__)"])
+    c.after_stmt("key = self._getkey()", ["K__ = pos__ - %s" % Ts])
+    part_ok = ["assert put_p__ == K__ + %s + 4" % Ts]
+    if which == "read":
+        part_ok.append("assert put_n__ == F4(K__ + %s)%s" % (Ts, "" if form == "bytes" else " // (%s)" % bytes_per))
+        part_ok.append("SUM__ = SUM__ + put_n__")
+    # the statement that stores / appends a part differs per form; the position check is attached to the read of the closing length marker
+    c.closing_marker_hook = part_ok
+    return c, b, env
+
+
+def record_jobs(src):
+    """one job per form of rdop2record (the loop taken differs) and one for the skipper; the hook that checks each part is attached to the statement following the store"""
+    out = []
+    for form, with_n in ((None, False), ("int", True), ("uint", False), ("double", False), ("single", True), ("bytes", False)):
+        c, b, env = record_contract("read", form, with_n)
+        Ts = "(8 + ib)"
+        # the part just stored is checked at the read of the closing length marker (the statement `f.read(4)` present in every loop)
+        if form == "bytes":
+            c.after_stmt("f.read(4)", c.closing_marker_hook + ["assert pos__ == K__ + %s + 4 + F4(K__ + %s) + 4" % (Ts, Ts)])
+        else:
+            c.after_stmt("f.read(4)", c.closing_marker_hook + ["assert pos__ == K__ + %s + 4 + (F4(K__ + %s) // (%s)) * (%s) + 4" % (Ts, Ts, "BPF__", "BPF__")])
+        # on return behind the two closing triplets; well-formed payloads are whole numbers of items
+        c.requires("True")
+        c.ensures("pos__ == RECEND(P0__) + 3 * %s or FI(P0__ + 4) == 0 and pos__ == P0__ + %s" % (Ts, Ts))
+        out.append(dict(contract=c, source=src, builtins=b, lang="python", tag="op2.rdop2record[form=%s%s, ghost file]" % (form, ", N" if with_n else "")))
+    c, b, env = record_contract("skip")
+    c.ensures("pos__ == RECEND(P0__) + 3 * (8 + ib)")
+    out.append(dict(contract=c, source=src, builtins=b, lang="python", tag="op2.skipop2record[ghost file]"))
+    return out
